@@ -240,6 +240,20 @@ class NoteVal:
     def a_eq(self, interp, other):
         if other is self:
             return True
+        if isinstance(other, NoteVal):
+            # a NoteVal is the note the interval code spells on letter `head` at pitch class `pitch`:
+            # different letters are different strings; the same letter at the same pitch class is the same spelling
+            if other.head != self.head:
+                return False
+            lo, hi = interp.lin_interval(interp.resolve(self.pitch - other.pitch))
+            if lo == hi:
+                return int(lo) % 12 == 0
+        elif isinstance(other, (str, AbsStr, Ch)):
+            try:
+                if decompose(other, interp)[0] != self.head:
+                    return False
+            except Shape:
+                pass
         return None  # spelling unknown
 
     def a_len(self, interp):
